@@ -159,8 +159,8 @@ static void sets(int n, std::vector<Str> &srcs, std::vector<Str> &bases) {
         Str s1 = Str(pre) + seg; if (!ref::is_uri_reference(s1)) continue; if (seen_s.insert(s1).second) srcs.push_back(s1); Str s2 = s1 + "/x?q"; if (seen_s.insert(s2).second) srcs.push_back(s2);
         if (seen_b.insert(s1).second) bases.push_back(s1); }
     // a dot segment as the LAST directory of the base (and nowhere before it), and sources that share the directories in front of it
-    for (auto bp : { "/a/./c", "/a/b/../c", "/a/b/./", "/a/../", "/./c", "/a/b/c/../d" }) for (auto pre : { "s://h", "s:" }) { Str t = Str(pre) + bp; if (seen_b.insert(t).second) bases.push_back(t); if (seen_s.insert(t).second) srcs.push_back(t); }
-    for (auto sp : { "/a/x", "/a/b/x", "/a/b/c/x", "/x" }) for (auto pre : { "s://h", "s:" }) { Str t = Str(pre) + sp; if (seen_s.insert(t).second) srcs.push_back(t); }
+    for (auto bp : { "/a/./c", "/a/b/../c", "/a/b/./", "/a/../", "/./c", "/a/b/c/../d" }) for (auto pre : { "s://h", "s:", "s://1.2.3.4", "s://[::1]", "s://[v1.a]", "s://v1.a", "s://u@[::1]:1" }) { Str t = Str(pre) + bp; if (seen_b.insert(t).second) bases.push_back(t); if (seen_s.insert(t).second) srcs.push_back(t); }
+    for (auto sp : { "/a/x", "/a/b/x", "/a/b/c/x", "/x" }) for (auto pre : { "s://h", "s:", "s://1.2.3.4", "s://[::1]", "s://[v1.a]", "s://v1.a", "s://u@[::1]:1" }) { Str t = Str(pre) + sp; if (seen_s.insert(t).second) srcs.push_back(t); }
     // schemes that differ in case only, that extend one another, or that hold every kind of scheme character: "share the scheme" means the same text
     for (auto sc : { "S", "sx", "s+", "s1", "s.", "http", "HTTP", "Http", "httP" }) for (auto body : { "://h/a/b", ":/a/b", ":a/b", "://h/a/c?q", ":" }) {
         Str t = Str(sc) + body; if (!ref::is_uri_reference(t)) continue; if (seen_s.insert(t).second) srcs.push_back(t); if (seen_b.insert(t).second) bases.push_back(t); }
